@@ -6,6 +6,7 @@ import Bita.Proofs.Writer
 import Bita.Proofs.TryInit
 import Bita.Proofs.ProtoRoundtrip
 import Bita.Proofs.Schedule
+import Bita.Proofs.CliFs
 
 namespace Bita.Props.C11
 open Bita Bita.Proto Bita.Spec Bita.Proofs
@@ -89,6 +90,19 @@ chunk" also holds for the process, not only for the sequential model). -/
 theorem temp_file_complete (late : Bool) (chunks : List Bytes) :
     tempFileSeen true late chunks = chunks.flatten :=
   Proofs.temp_file_complete late chunks
+
+/-- ... also when a longer, stale temp file exists (left by an interrupted compress): the CLI
+writer's archive is still exactly the sequential model's, so it ends at the last stored chunk. -/
+theorem stale_temp_file_does_not_leak (H : Bytes → Bytes) (comp : Bytes → Bytes) (c : CompressCmd) (fs : Fs)
+    (old : Bytes) (htmp : fs.get c.temp = some (.regular old))
+    (hdistinct : c.temp ≠ c.output ∧ c.input ≠ c.output ∧ c.input ≠ c.temp)
+    (hflush : Gen.cliTempFlushedBeforeReturn = true) :
+    let r := Cli.compress H comp c fs
+    r.ok = true →
+      r.fs.get c.temp = none ∧
+      (∃ src, (fs.get c.input).map (·.data) = some src ∧
+        r.fs.get c.output = some (.regular (createArchive H "cli" comp c.opts src))) :=
+  Proofs.compress_ignores_stale_temp H comp c fs old htmp hdistinct hflush
 
 /-! Non-vacuity: a concrete archive, its layout read back. -/
 def toyH (x : Bytes) : Bytes := (x ++ List.replicate 64 0).take 64
